@@ -22,7 +22,7 @@ import (
 // than flatMaxDepth. Deferred calls and go statements are not expanded. Everything else is
 // stepped over, exactly as the intraprocedural primitives do.
 
-const flatMaxDepth = 6
+const flatMaxDepth = 9
 
 // FCtx is a call context: the chain of expanded call instructions from the root.
 type FCtx struct {
